@@ -16,6 +16,7 @@ import (
 
 	"github.com/lindb/lindb/constants"
 	"github.com/lindb/lindb/index"
+	vbox "github.com/lindb/lindb/internal/vbox"
 	"github.com/lindb/lindb/internal/vcrashfs"
 	"github.com/lindb/lindb/internal/vevid"
 	vos "github.com/lindb/lindb/internal/vos"
@@ -127,10 +128,16 @@ func crashSeams() {
 
 // history: per step the number of batches created before a PrepareFlush+Flush; a trailing 0 = final flush only
 type chistory struct {
-	Steps []int `json:"steps"`
+	Steps  []int `json:"steps"`
+	Series bool  `json:"series,omitempty"` // series ids of one metric in a MetricIndexDatabase instead of names in the metadata database
 }
 
-func (h chistory) String() string { return fmt.Sprint(h.Steps) }
+func (h chistory) String() string {
+	if h.Series {
+		return "series" + fmt.Sprint(h.Steps)
+	}
+	return fmt.Sprint(h.Steps)
+}
 
 func createBatch(db index.MetricMetaDatabase, i int) (batchIDs, error) {
 	b := batchOf(i)
@@ -162,6 +169,10 @@ var cseen = map[string]bool{}
 var cRunNo int
 
 func runCrashHistory(rep *vevid.Report, h chistory) {
+	if h.Series {
+		runSeriesCrashHistory(rep, h)
+		return
+	}
 	scen := "history=" + h.String()
 	viol := func(clause, site, detail string) {
 		rep.Violate(vevid.Violation{Clause: clause, Scenario: scen, Site: site, Detail: detail, Replay: h})
@@ -350,6 +361,187 @@ func recoverMeta(rep *vevid.Report, h chistory, p *vcrashfs.Point) {
 	_ = tag.KeyID(0)
 }
 
+// ---------------------------------------------------------------------------------------------------
+// series ids: crash points inside MetricIndexDatabase.Flush (metric -> series postings, forward and inverted index,
+// tags-hash -> series id dictionary). After recovery the ids handed out for DIFFERENT tag sets of one metric must be
+// different, whichever of the families made it to disk: new ids are seeded from the recovered postings, looked-up ones
+// come from the recovered dictionary.
+
+func seriesRow(host string) *metric.StorageRow {
+	rows, err := vbox.Rows([]vbox.Point{{Namespace: "ns", Metric: "m", Tags: map[string]string{"host": host}, Field: "f", Type: "sum", Value: 1, Timestamp: 1700000000000}})
+	if err != nil {
+		vevid.Fatal("rows: %v", err)
+	}
+	return rows[0]
+}
+
+func openSeriesWorld(root string) (index.MetricMetaDatabase, index.MetricIndexDatabase, metric.ID, error) {
+	meta, err := index.NewMetricMetaDatabase("db", filepath.Join(root, "meta"))
+	if err != nil {
+		return nil, nil, 0, err
+	}
+	idx, err := index.NewMetricIndexDatabase(filepath.Join(root, "index"), meta)
+	if err != nil {
+		_ = meta.Close()
+		return nil, nil, 0, err
+	}
+	mid, err := meta.GenMetricID([]byte("ns"), []byte("m"))
+	if err != nil {
+		_ = idx.Close()
+		_ = meta.Close()
+		return nil, nil, 0, err
+	}
+	return meta, idx, mid, nil
+}
+
+func runSeriesCrashHistory(rep *vevid.Report, h chistory) {
+	scen := "history=" + h.String()
+	viol := func(clause, site, detail string) {
+		rep.Violate(vevid.Violation{Clause: clause, Scenario: scen, Site: site, Detail: detail, Replay: h})
+	}
+	cRunNo++
+	dir := filepath.Join(scratch, fmt.Sprintf("c%d", cRunNo))
+	_ = os.RemoveAll(dir)
+	defer os.RemoveAll(dir)
+	defer func() {
+		crec = nil
+		if r := recover(); r != nil {
+			viol("panic", "index", fmt.Sprint(r))
+		}
+	}()
+	meta, idx, mid, err := openSeriesWorld(dir)
+	if err != nil {
+		vevid.OpFailed("new meta db: %v", err)
+	}
+	crec = vcrashfs.NewRecorder(dir)
+	crec.Skip = func(rel string) bool { return strings.HasSuffix(rel, "LOCK") }
+	created := map[int]uint32{} // series number -> id
+	crec.Note = func() interface{} {
+		cp := map[int]uint32{}
+		for k, v := range created {
+			cp[k] = v
+		}
+		return cp
+	}
+	crec.Pause()
+	closeAll := func() { _ = idx.Close(); _ = meta.Close() }
+	next := 0
+	for _, n := range h.Steps {
+		for i := 0; i < n; i++ {
+			id, err := idx.GenSeriesID(mid, seriesRow(fmt.Sprintf("h%d", next)))
+			if err != nil {
+				viol("create-failed", "index.GenSeriesID", err.Error())
+				closeAll()
+				return
+			}
+			for k, other := range created {
+				if other == id {
+					viol("one-id-per-name", "index.GenSeriesID", fmt.Sprintf("series h%d and h%d of one metric share id %d", k, next, id))
+				}
+			}
+			created[next] = id
+			next++
+		}
+		// production order: metadata first (names, tag keys and values durable), then the shard's index
+		meta.PrepareFlush()
+		if err := meta.Flush(); err != nil {
+			viol("flush-failed", "index.MetricMetaDatabase.Flush", err.Error())
+			closeAll()
+			return
+		}
+		idx.PrepareFlush()
+		crec.Resume()
+		crec.At("index flush starts")
+		err := idx.Flush()
+		crec.At("index flush returned")
+		crec.Pause()
+		if err != nil {
+			viol("flush-failed", "index.MetricIndexDatabase.Flush", err.Error())
+			closeAll()
+			return
+		}
+	}
+	points := crec.Points
+	crec = nil
+	closeAll()
+	rep.Count("series_histories", 1)
+	rep.Count("seam_calls", int64(len(points)))
+	for _, p := range points {
+		key := "s" + p.Image.Hash()
+		if cseen[key] {
+			continue
+		}
+		cseen[key] = true
+		rep.Evaluations++
+		rep.DistinctNontrivial++
+		recoverSeries(rep, h, p)
+	}
+	rep.Sample(map[string]interface{}{"history": h.String(), "crash_points": len(points)})
+}
+
+func recoverSeries(rep *vevid.Report, h chistory, p *vcrashfs.Point) {
+	scen := "history=" + h.String()
+	created := p.Note.(map[int]uint32)
+	where := fmt.Sprintf("crash after seam call #%d [%s]: ", p.Seq, p.Label)
+	viol := func(clause, site, detail string) {
+		rep.Violate(vevid.Violation{Clause: clause, Scenario: scen, Site: site, Detail: where + detail, Replay: h})
+	}
+	dir := filepath.Join(scratch, "ccrash")
+	_ = os.RemoveAll(dir)
+	defer os.RemoveAll(dir)
+	if err := p.Image.Materialize(dir); err != nil {
+		vevid.Fatal("materialize: %v", err)
+	}
+	meta, idx, mid, err := openSeriesWorld(dir)
+	if err != nil {
+		viol("reopen-failed", "index.NewMetricIndexDatabase", err.Error())
+		return
+	}
+	defer func() {
+		if r := recover(); r != nil {
+			viol("panic", "index", fmt.Sprint(r))
+		}
+		_ = idx.Close()
+		_ = meta.Close()
+	}()
+	// first two NEW series (their ids are seeded from the recovered postings), then every series created before the
+	// crash (looked up in the recovered dictionary, or created again when it did not make it)
+	var order []int
+	for i := range created {
+		order = append(order, i)
+	}
+	sort.Ints(order)
+	names := []string{"n0", "n1"}
+	for _, i := range order {
+		names = append(names, fmt.Sprintf("h%d", i))
+	}
+	got := map[uint32]string{}
+	kept := 0
+	for _, name := range names {
+		id, err := idx.GenSeriesID(mid, seriesRow(name))
+		if err != nil {
+			viol("create-after-recovery-failed", "index.GenSeriesID", name+": "+err.Error())
+			return
+		}
+		if other, dup := got[id]; dup {
+			viol("recovered-injective", "index.GenSeriesID", fmt.Sprintf("after recovery the series host=%s and host=%s of one metric both have series id %d (ids before the crash: %v)", other, name, id, created))
+		}
+		got[id] = name
+		if strings.HasPrefix(name, "h") {
+			var n int
+			fmt.Sscanf(name, "h%d", &n)
+			if created[n] == id {
+				kept++
+			}
+		}
+		// the same tag set again: the same id
+		if id2, err := idx.GenSeriesID(mid, seriesRow(name)); err != nil || id2 != id {
+			viol("stable-id", "index.GenSeriesID", fmt.Sprintf("series host=%s got id %d, asked again %d (%v)", name, id, id2, err))
+		}
+	}
+	rep.Outcome(fmt.Sprintf("series kept=%d of %d", kept, len(created)))
+}
+
 func runCrashPart(rep *vevid.Report, f *vevid.Flags) {
 	crashSeams()
 	if f.Replay != "" {
@@ -366,7 +558,7 @@ func runCrashPart(rep *vevid.Report, f *vevid.Flags) {
 	if f.Thorough() {
 		maxSteps, maxBatches = 4, 3
 	}
-	rep.Rule = fmt.Sprintf("all histories of <=%d flush steps, each preceded by 0..%d batches of new names (a batch = one metric in one of two namespaces sharing a bucket, one field, one tag key, one tag value); a crash image after EVERY seam call of every MetricMetaDatabase.Flush (kv manifest/table writers, renames, sequence-file sync); every distinct image is reopened: names found keep their ids, recovered ids are injective, names created afterwards do not reuse a recovered id; evaluations = distinct images recovered", maxSteps, maxBatches)
+	rep.Rule = fmt.Sprintf("all histories of <=%d flush steps, each preceded by 0..%d batches of new names (a batch = one metric in one of two namespaces sharing a bucket, one field, one tag key, one tag value); a crash image after EVERY seam call of every MetricMetaDatabase.Flush (kv manifest/table writers, renames, sequence-file sync); every distinct image is reopened: names found keep their ids, recovered ids are injective, names created afterwards do not reuse a recovered id. The same histories with batches = new series (tag sets) of one metric in a MetricIndexDatabase: a crash image after every seam call of MetricIndexDatabase.Flush; after recovery two new series and every earlier series are looked up / created: different tag sets never share a series id, the same tag set keeps its id when asked again. evaluations = distinct images recovered", maxSteps, maxBatches)
 	rep.Bounds["max_flush_steps"] = maxSteps
 	rep.Bounds["max_batches_per_step"] = maxBatches
 	var idx int64
@@ -381,6 +573,10 @@ func runCrashPart(rep *vevid.Report, f *vevid.Flags) {
 				idx++
 				if f.Mine(idx) && !f.Expired() {
 					runCrashHistory(rep, chistory{Steps: append([]int(nil), prefix...)})
+				}
+				idx++
+				if f.Mine(idx) && !f.Expired() {
+					runCrashHistory(rep, chistory{Steps: append([]int(nil), prefix...), Series: true})
 				}
 			}
 		}
